@@ -32,6 +32,7 @@ func operandInState(name string, dims []int, state int) (T, []float64) {
 var c08Ops = []string{
 	"Scale", "Pow", "Exp", "Log", "Sin", "Cos", "Tan", "Sinh", "Cosh", "Tanh",
 	"Transpose", "Reshape", "UnSqueeze", "Squeeze", "Flatten", "Broadcast", "Slice",
+	"ReshapeSame", "FlattenLast", "BroadcastSame", "SliceWhole", "PatchWhole",
 	"SumAlong", "MaxAlong", "MinAlong", "AvgAlong", "VarAlong", "StdAlong", "MeanAlong",
 	"Add", "Sub", "Mul", "Div", "ElMax", "ElMin", "Dot", "MatMul", "Patch", "Concat2", "Concat3",
 	"Eq", "Ne", "Gt", "Ge", "Lt", "Le",
@@ -74,6 +75,16 @@ func c08Apply(op string, xs []T) (T, error) {
 		return u.Squeeze(0)
 	case "Flatten":
 		return x.Flatten(0)
+	case "ReshapeSame": // identity-like calls: the result must still be a new value
+		return x.Reshape(x.Shape())
+	case "FlattenLast":
+		return x.Flatten(1)
+	case "BroadcastSame":
+		return x.Broadcast(x.Shape())
+	case "SliceWhole":
+		return x.Slice(nil)
+	case "PatchWhole":
+		return x.Patch(nil, x)
 	case "Broadcast":
 		return x.Broadcast([]int{2, 2, 2})
 	case "Slice":
